@@ -178,7 +178,11 @@ def stepLine30 (d : D30) (line : String) : D30 × String :=
         | .recs l => .recs (l.mergeSort fun a b => a.1 ≤ b.1)
         | .pexp l => .pexp (l.mergeSort fun a b => a.1 ≤ b.1)
         | r => r
-      ({ d with k := { k with s := o.s, ck := ck, opNo := opNo } }, showResp30 ck verb shown ++ flag)
+      -- PatchTreasures summoned a swamp that does not exist and stored nothing
+      let ghost := !Model.exists_ k.s && Model.exists_ o.s && (Model.abs o.s).isEmpty
+      let flag := if ghost && k.pol == .c06 then "\t#F:C06-patch-summons-missing-swamp" else flag
+      ({ d with k := { k with s := o.s, ck := ck, opNo := opNo, lastTag := if ghost then some Tag.patchGhost else k.lastTag } },
+       showResp30 ck verb shown ++ flag)
 
 /-- the data step of `Model30` (index kept in order) with the tags of the plain model -/
 def stepF30 (e : ExpCfg) (cfg : Cfg) (ar : Arith) (now : Int) (s : State) (r : Req) : Model.Out :=
@@ -194,8 +198,16 @@ def goodSites (ne0 : Bool) : ExpCfg :=
 def run (args : List String) : IO UInt32 := do
   let kv := parseArgs args
   let e := expCfgOfArgs kv
-  lineLoop stepLine30 { k := { cfg := cfgOfArgs kv, pol := .c30, pid := "C30", ar := ieeeWith (arg kv "wireGet" == "ne0"),
+  lineLoop stepLine30 { k := { cfg := cfgOfArgs kv, pol := .c30, pid := "C30", fltBitwise := boolOf (arg kv "fltSetBitwise"), ar := ieeeWith (arg kv "wireGet" == "ne0"),
                                stepF := stepF30 e }, e := e }
+  return 0
+
+/-- C06's histories contain PatchTreasures requests (they can summon a swamp) -/
+def runC06 (args : List String) : IO UInt32 := do
+  let kv := parseArgs args
+  let ne0 := boolOf (arg kv "wireExpNe0")
+  let e := goodSites ne0
+  lineLoop stepLine30 { k := { cfg := cfgOfArgs kv, pol := .c06, pid := "C06", fltBitwise := boolOf (arg kv "fltSetBitwise"), ar := ieeeWith ne0, stepF := stepF30 e }, e := e }
   return 0
 
 /-- C05's histories mix the expiry-aware requests in: same stepping, close/reload policy of C05, the
@@ -204,7 +216,7 @@ def runC05 (args : List String) : IO UInt32 := do
   let kv := parseArgs args
   let ne0 := boolOf (arg kv "wireExpNe0")
   let e := goodSites ne0
-  lineLoop stepLine30 { k := { cfg := cfgOfArgs kv, pol := .c05, pid := "C05", ar := ieeeWith ne0, stepF := stepF30 e }, e := e }
+  lineLoop stepLine30 { k := { cfg := cfgOfArgs kv, pol := .c05, pid := "C05", fltBitwise := boolOf (arg kv "fltSetBitwise"), ar := ieeeWith ne0, stepF := stepF30 e }, e := e }
   return 0
 
 end Driver.C30
